@@ -222,7 +222,7 @@ def check_C07(tier, seed):
 
 CHANNEL_STUB = ['the network between the two endpoints (packet pool: loss, duplication, reordering, corruption, '
                 'truncation, extension, key/nonce desynchronisation)',
-                'getrandom() (deterministic tape; only the masked families draw from it)']
+                'getrandom() and the random devices /dev/urandom, /dev/random (one deterministic tape; failure script while a packet is processed; only the masked families draw from it)']
 
 
 def check_C02(tier, seed):
@@ -266,7 +266,7 @@ def check_C15(tier, seed):
     o = D.Outcome('C15', tier, seed)
     o.legend = LEGEND
     o.components = dict(real=COMPONENTS_LIB['real'] + ['ascon_trng_generate() and its EINTR/EAGAIN retry loop (src/random/ascon-trng-dev-random.c)'],
-                        stub=['getrandom() behind -Wl,--wrap (entropy tape + EINTR/EAGAIN/EIO script)',
+                        stub=['getrandom() and the random devices behind -Wl,--wrap (entropy tape + EINTR/EAGAIN/EIO script)',
                               'non-volatile page behind the ascon_storage_t callbacks (errors, short and torn writes, power loss by longjmp)'])
     o.assumptions = ['inverse permutation p^-1 in the harness, self-tested against ascon_permute at start-up',
                      'status convention for save/load: non-zero = done, 0 = storage failed, -1 = invalid parameters (random.h after the F12 documentation fix)',
@@ -442,7 +442,7 @@ def check_C16(tier, seed):
                               'the C++ wrapper sources are compiled with clang++ and the same callbacks and run through every cipher, hash and xof class'],
                         stub=['thread scheduling: real pthreads released one at a time by a seeded scheduler (Bernoulli pre-emption at rate 1/10..1/5000 or d change points)',
                               'memcpy/memset/explicit_bzero wrapped so that range accesses from library code reach the detector',
-                              'getrandom() (per-thread tapes, so results are schedule independent by construction of the harness)',
+                              'getrandom() and the random devices (per-thread tapes, failing for a quarter of the operations, so results are schedule independent by construction of the harness)',
                               'asm backend only: ascon_permute wrapped and modelled as read+write of the 40 state bytes'])
     o.assumptions = ['the library contains no synchronisation, so any two accesses from different threads to the same byte with at least one write are a data race',
                      'races are decided at the granularity of clang -O1 loads/stores of the C sources (a race is a source-level property), not of the shipped -O3 binary',
